@@ -45,6 +45,7 @@ static qb_ipcs_service_t *SV;
 static char svc_name[64];
 static int W_free_choices;                                 /* harness: relative speed of the parties is an explorer choice right now */
 static int W_small_bufs;                                   /* environment: minimum stream socket buffers */
+
 static int W_stop_server;                                  /* harness: the server loop shall stop at its next iteration boundary */
 static void (*W_on_death)(int co);                         /* harness: closes the descriptors of a party that died */
 
@@ -85,8 +86,38 @@ static int w_idle(void)
 	uint64_t m = W_NEVER;
 	int i;
 	for (i = 0; i < VP_MAXCO; i++) if (WT[i].active && !W_dead[i] && WT[i].deadline < m) m = WT[i].deadline;
-	if (m == W_NEVER) return 0;
+	/* nobody can run.  A party that is to die before its next call and waits without a deadline dies in that call */
+	for (i = 0; i < VP_MAXCO; i++) if (WT[i].active && !W_dead[i] && WT[i].deadline == W_NEVER && W_kill_at[i] && W_calls[i] + 1 >= W_kill_at[i]) {
+		W_dead[i] = 1; WT[i].active = 0;
+		vp_log("  *** %s dies while blocked in its wrapped call #%ld", vp_co_name(i), W_calls[i]);
+		if (W_on_death) W_on_death(i);
+		vp_co_kill(i);
+		W_epoch++;
+		return 1;
+	}
+	if (m == W_NEVER) {
+		/* everybody waits without a deadline.  A party that is to die before its next call and sits in a call that
+		   will never return dies there: for the others that is the same crash point */
+		for (i = 0; i < VP_MAXCO; i++) if (WT[i].active && !W_dead[i] && W_kill_at[i] && W_calls[i] + 1 >= W_kill_at[i]) {
+			W_dead[i] = 1; WT[i].active = 0;
+			vp_log("  *** %s dies while blocked in its wrapped call #%ld", vp_co_name(i), W_calls[i]);
+			if (W_on_death) W_on_death(i);
+			vp_co_kill(i);
+			W_epoch++;
+			return 1;
+		}
+		/* a crash point that is never reached because the party makes no further call: same as the complete run */
+		for (i = 0; i < VP_MAXCO; i++) if (!W_dead[i] && W_kill_at[i] && W_calls[i] + 1 < W_kill_at[i] && WT[i].active) {
+			vp_pruned();
+			vp_co_abort();
+		}
+		return 0;
+	}
 	if (m > W_now) W_now = m;
+	if (W_now - W_BASE > W_horizon_ns) {
+		/* a crash point that is never reached (the party makes no further call while the others wait with timeouts) */
+		for (i = 0; i < VP_MAXCO; i++) if (!W_dead[i] && W_kill_at[i] && W_calls[i] + 1 < W_kill_at[i]) { vp_pruned(); vp_co_abort(); }
+	}
 	if (W_now - W_BASE > W_horizon_ns) vp_fail("virtual time horizon of %llu s exceeded: a party keeps waiting or polling without progress", (unsigned long long)(W_horizon_ns / 1000000000ULL));
 	W_epoch++;
 	return 1;
@@ -254,10 +285,69 @@ static void w_shrink(int fd)
 	setsockopt(fd, SOL_SOCKET, SO_SNDBUF, &one, sizeof one);
 	setsockopt(fd, SOL_SOCKET, SO_RCVBUF, &one, sizeof one);
 }
+/* which party created a descriptor: when a party dies exactly its descriptors are closed (what the kernel does) */
+#define W_MAXFD 1024
+static signed char W_fd_owner[W_MAXFD];
+static void w_own(int fd) { if (fd >= 0 && fd < W_MAXFD) W_fd_owner[fd] = (signed char)(vp_co_self() + 2); }   /* 1 = main context */
+static void w_adopt_main_fds(int co) { int fd; for (fd = 3; fd < W_MAXFD; fd++) if (W_fd_owner[fd] == 1) W_fd_owner[fd] = (signed char)(co + 2); }
+static void w_close_fds_of(int co)
+{
+	int fd;
+	for (fd = 3; fd < W_MAXFD; fd++) if (W_fd_owner[fd] == co + 2) { W_fd_owner[fd] = 0; __real_close(fd); }
+}
+int __real_close(int fd);
+int __wrap_close(int fd);
+int __wrap_close(int fd) { if (fd >= 0 && fd < W_MAXFD) W_fd_owner[fd] = 0; return __real_close(fd); }
+int __real_epoll_create1(int fl);
+int __wrap_epoll_create1(int fl);
+int __wrap_epoll_create1(int fl) { int fd = __real_epoll_create1(fl); w_own(fd); return fd; }
 int __wrap_socket(int d, int t, int p);
-int __wrap_socket(int d, int t, int p) { int fd = __real_socket(d, t, p); w_shrink(fd); return fd; }
+int __wrap_socket(int d, int t, int p) { int fd; w_call("socket"); fd = __real_socket(d, t, p); w_shrink(fd); w_own(fd); return fd; }
 int __wrap_accept(int fd, struct sockaddr *a, socklen_t *l);
-int __wrap_accept(int fd, struct sockaddr *a, socklen_t *l) { int n; w_call("accept"); n = __real_accept(fd, a, l); w_shrink(n); return n; }
+int __wrap_accept(int fd, struct sockaddr *a, socklen_t *l) { int n; w_call("accept"); n = __real_accept(fd, a, l); w_shrink(n); w_own(n); return n; }
+
+/* further libc calls that are crash points of a dying party (pass-through + w_call) */
+int __real_connect(int fd, const struct sockaddr *a, socklen_t l);
+int __wrap_connect(int fd, const struct sockaddr *a, socklen_t l);
+int __wrap_connect(int fd, const struct sockaddr *a, socklen_t l) { w_call("connect"); return __real_connect(fd, a, l); }
+int __real_bind(int fd, const struct sockaddr *a, socklen_t l);
+int __wrap_bind(int fd, const struct sockaddr *a, socklen_t l);
+int __wrap_bind(int fd, const struct sockaddr *a, socklen_t l) { w_call("bind"); return __real_bind(fd, a, l); }
+int __real_shutdown(int fd, int how);
+int __wrap_shutdown(int fd, int how);
+int __wrap_shutdown(int fd, int how) { w_call("shutdown"); return __real_shutdown(fd, how); }
+int __real_unlink(const char *p);
+int __wrap_unlink(const char *p);
+int __wrap_unlink(const char *p) { w_call("unlink"); return __real_unlink(p); }
+int __real_rmdir(const char *p);
+int __wrap_rmdir(const char *p);
+int __wrap_rmdir(const char *p) { w_call("rmdir"); return __real_rmdir(p); }
+char *__real_mkdtemp(char *t);
+char *__wrap_mkdtemp(char *t);
+char *__wrap_mkdtemp(char *t) { w_call("mkdtemp"); return __real_mkdtemp(t); }
+int __real_ftruncate(int fd, off_t l);
+int __wrap_ftruncate(int fd, off_t l);
+int __wrap_ftruncate(int fd, off_t l) { w_call("ftruncate"); return __real_ftruncate(fd, l); }
+int __real_chmod(const char *p, mode_t m);
+int __wrap_chmod(const char *p, mode_t m);
+int __wrap_chmod(const char *p, mode_t m) { w_call("chmod"); return __real_chmod(p, m); }
+int __real_chown(const char *p, uid_t u, gid_t g);
+int __wrap_chown(const char *p, uid_t u, gid_t g);
+int __wrap_chown(const char *p, uid_t u, gid_t g) { w_call("chown"); return __real_chown(p, u, g); }
+int __real_munmap(void *a, size_t l);
+int __wrap_munmap(void *a, size_t l);
+int __wrap_munmap(void *a, size_t l) { w_call("munmap"); return __real_munmap(a, l); }
+int __real_open(const char *p, int fl, ...);
+int __wrap_open(const char *p, int fl, ...);
+int __wrap_open(const char *p, int fl, ...)
+{
+	mode_t m = 0; int fd;
+	if (fl & O_CREAT) { va_list ap; va_start(ap, fl); m = (mode_t)va_arg(ap, int); va_end(ap); }
+	w_call("open");
+	fd = __real_open(p, fl, m);
+	w_own(fd);
+	return fd;
+}
 
 int __wrap_kill(pid_t p, int s);
 int __wrap_kill(pid_t p, int s)
@@ -299,27 +389,50 @@ static void world_init_sched(void)
 	vp_set_state_fn(NULL);
 	vp_access_filter = NULL;
 	vp_sync_points = 0;       /* the server is single threaded: its locks are never contended */
+	memset(W_fd_owner, 0, sizeof W_fd_owner);
 }
 
 /* list of /dev/shm entries (private mount), one string */
+static int shm_files_only;      /* 1: directories themselves are not listed, only what is inside them */
 static int shm_listing(char *out, size_t cap)
 {
 	DIR *d = opendir("/dev/shm"); struct dirent *e; size_t l = 0; int n = 0;
 	out[0] = 0;
 	if (!d) return -1;
 	while ((e = readdir(d))) {
+		char canon[300];
 		if (e->d_name[0] == '.') continue;
-		l += (size_t)snprintf(out + l, cap - l, "%s;", e->d_name); n++;
+		/* "qb-<pid>-<pid>-<fd>-<6 random characters>" differs from process to process: print a canonical form */
+		snprintf(canon, sizeof canon, "%s", e->d_name);
+		if (!strncmp(canon, "qb-", 3)) { char *q; int dashes = 0; for (q = canon + 3; *q; q++) { if (*q == '-') { dashes++; if (dashes == 3) { int k; for (k = 1; k <= 6 && q[k]; k++) q[k] = 'X'; break; } } else if (*q >= '0' && *q <= '9') *q = '#'; } }
+		if (!(shm_files_only && e->d_type == DT_DIR)) { l += (size_t)snprintf(out + l, cap - l, "%s;", canon); n++; }
 		if (e->d_type == DT_DIR) {
 			char p[400]; DIR *d2; struct dirent *e2;
 			snprintf(p, sizeof p, "/dev/shm/%s", e->d_name);
 			d2 = opendir(p);
-			if (d2) { while ((e2 = readdir(d2))) if (e2->d_name[0] != '.') { l += (size_t)snprintf(out + l, cap - l, "%s/%s;", e->d_name, e2->d_name); n++; } closedir(d2); }
+			if (d2) { while ((e2 = readdir(d2))) if (e2->d_name[0] != '.') { l += (size_t)snprintf(out + l, cap - l, "%s/%s;", canon, e2->d_name); n++; } closedir(d2); }
 		}
 		if (l + 300 > cap) break;
 	}
 	closedir(d);
 	return n;
+}
+/* empty the (private) /dev/shm: leftovers of earlier executions must not be seen by this one */
+static void shm_clean(void)
+{
+	DIR *d = opendir("/dev/shm"); struct dirent *e;
+	if (!d) return;
+	while ((e = readdir(d))) {
+		char p[400];
+		if (e->d_name[0] == '.') continue;
+		snprintf(p, sizeof p, "/dev/shm/%s", e->d_name);
+		if (e->d_type == DT_DIR) {
+			DIR *d2 = opendir(p); struct dirent *e2;
+			if (d2) { while ((e2 = readdir(d2))) if (e2->d_name[0] != '.') { char q[700]; snprintf(q, sizeof q, "%s/%s", p, e2->d_name); __real_unlink(q); } closedir(d2); }
+			__real_rmdir(p);
+		} else __real_unlink(p);
+	}
+	closedir(d);
 }
 static int open_fd_count(void)
 {
